@@ -94,32 +94,40 @@ func verifHexDigit(c byte) bool {
 }
 
 // Words of the layout that are also valid Docker repository path components.
-var verifRepoKeywords = []string{"blobs", "sha256", "tags", "data", "link", "v2", "docker", "registry", "current", "index", "revisions", "hashstates", "startedat"}
+var verifRepoKeywords = []string{"sha256", "tags", "data", "blobs", "link", "hashstates", "revisions", "startedat", "current", "index", "v2", "docker", "registry"}
 
-// verifRepoComponent: a layout word (first nkw of the list above) or 1..maxLen
-// symbolic alphanumeric bytes ([a-z0-9]+(?:[._-][a-z0-9]+)* for <= 2 bytes).
-func verifRepoComponent(nkw, maxLen int) string {
-	k := verif.Choice("repo_comp_kind", 1+maxLen)
-	if k == 0 {
-		return verifRepoKeywords[verif.Choice("repo_keyword", nkw)]
-	}
-	b := verif.Bytes("repo_comp", k)
+func verifRepoBytes(n int) []byte {
+	b := verif.Bytes("repo", n)
 	for j := range b {
 		verif.Assume(verifAlnum(b[j]))
 	}
-	return string(b)
+	return b
 }
 
-func verifRepo(maxComp, nkw, maxLen int) string {
-	n := verif.Len("repo_comps", 1, maxComp)
-	repo := ""
-	for i := 0; i < n; i++ {
-		if i > 0 {
-			repo += "/"
-		}
-		repo += verifRepoComponent(nkw, maxLen)
+// verifRepo: a Docker repository name ([a-z0-9]+(?:[._-][a-z0-9]+)* components
+// joined by '/') of one of the shapes
+//
+//	xy | x/y | KW/x | x/KW | KW/KW' (thorough) | x/KW/y (thorough)
+//
+// with x, y symbolic alphanumeric bytes and KW one of the first nkw layout
+// words above.
+func verifRepo(nkw int) string {
+	kw := func() string { return verifRepoKeywords[verif.Choice("repo_keyword", nkw)] }
+	switch verif.Choice("repo_shape", verif.Bound("repo_shapes", 4, 6)) {
+	case 0:
+		return string(verifRepoBytes(2))
+	case 1:
+		b := verifRepoBytes(2)
+		return string(b[:1]) + "/" + string(b[1:])
+	case 2:
+		return kw() + "/" + string(verifRepoBytes(1))
+	case 3:
+		return string(verifRepoBytes(1)) + "/" + kw()
+	case 4:
+		return kw() + "/" + kw()
 	}
-	return repo
+	b := verifRepoBytes(2)
+	return string(b[:1]) + "/" + kw() + "/" + string(b[1:])
 }
 
 // Tags ([A-Za-z0-9_][A-Za-z0-9_.-]{0,127}) that coincide with layout words.
@@ -148,14 +156,19 @@ func verifTag(nkw, minLen, maxLen int) string {
 
 const verifHexTail = "3a5c916c92643ff77519ffa742d3ec61b7f591b6b7504599d95a4a41134e"
 
-// verifHex: 64 hex digits; the first two (the shard directory), one in the
-// middle and the last are symbolic.
+// verifHex: 64 hex digits; the first (shard directory) and the last are
+// symbolic, in the thorough tier also the second and one in the middle.
 func verifHex() string {
-	b := verif.Bytes("hex", 4)
-	for j := range b {
-		verif.Assume(verifHexDigit(b[j]))
+	b := verif.Bytes("hex", 2)
+	verif.Assume(verifHexDigit(b[0]))
+	verif.Assume(verifHexDigit(b[1]))
+	if verif.Bound("symbolic_hex_digits", 2, 4) == 2 {
+		return string(b[:1]) + "f" + verifHexTail[:30] + "0" + verifHexTail[30:] + string(b[1:])
 	}
-	return string(b[:2]) + verifHexTail[:30] + string(b[2:3]) + verifHexTail[30:] + string(b[3:])
+	c := verif.Bytes("hex_more", 2)
+	verif.Assume(verifHexDigit(c[0]))
+	verif.Assume(verifHexDigit(c[1]))
+	return string(b[:1]) + string(c[:1]) + verifHexTail[:30] + string(c[1:]) + verifHexTail[30:] + string(b[1:])
 }
 
 // verifUUID: 8-4-4-4-12 with three symbolic hex digits.
@@ -171,7 +184,7 @@ func verifAlg() string {
 	if verif.Choice("alg", 2) == 0 {
 		return "sha256"
 	}
-	b := verif.Bytes("alg", 2)
+	b := verif.Bytes("alg", verif.Bound("alg_len", 1, 2))
 	for j := range b {
 		verif.Assume(verif.Or(verifAlnum(b[j]), verif.And(b[j] >= 'A', b[j] <= 'Z')))
 	}
@@ -263,7 +276,36 @@ func VerifBuiltPathsParse() {
 	kind := verif.Choice("kind", verifNumKinds)
 	p := verifParts0(kind)
 	if verifHasRepo(kind) {
-		p.repo = verifRepo(verif.Bound("repo_comps", 2, 3), verif.Bound("repo_keywords", 5, len(verifRepoKeywords)), verif.Bound("repo_comp_len", 1, 2))
+		p.repo = verifRepo(verif.Bound("repo_keywords", 4, len(verifRepoKeywords)))
 	}
+	verifCheckBuilt(p, true)
+}
+
+// VerifFindingGetRepoRepositoriesComponent: as above for repository names with
+// a component "repositories" (a valid Docker path component).
+func VerifFindingGetRepoRepositoriesComponent() {
+	kinds := []int{verifKTagsDir, verifKLayerLink, verifKUploadData, verifKTagCurrent}
+	kind := kinds[verif.Choice("kind", len(kinds))]
+	p := verifParts0(kind)
+	b := verifRepoBytes(1)
+	switch verif.Choice("repo_shape", 3) {
+	case 0:
+		p.repo = string(b) + "/repositories"
+	case 1:
+		p.repo = "repositories/" + string(b)
+	default:
+		p.repo = "repositories"
+	}
+	verifCheckBuilt(p, true)
+}
+
+// VerifFindingGetRepoTagNamedLikeLayoutDir: tags "_manifests", "_layers" and
+// "_uploads" are valid tag names ([A-Za-z0-9_][A-Za-z0-9_.-]{0,127}).
+func VerifFindingGetRepoTagNamedLikeLayoutDir() {
+	kinds := []int{verifKTagCurrent, verifKTagIndex}
+	p := verifParts{kind: kinds[verif.Choice("kind", 2)]}
+	p.tag = []string{"_manifests", "_layers", "_uploads"}[verif.Choice("tag", 3)]
+	p.hex = verifHex()
+	p.repo = string(verifRepoBytes(2))
 	verifCheckBuilt(p, true)
 }
